@@ -760,9 +760,277 @@ def gen_coupled_case(rng, quick):
             'grain': grain, 'spans': spans, 'order': str(rng.choice(['sgo', 'gso']))}
 
 
+# ==========================================================================================
+# oracle 6 (round 5): histories on ONE GrainGrowthModel through the public loading API - load from data / from a
+# function, solve, reset(), setter, solve again; the INITIAL state of every run is looked at, not only the steps;
+# two models alive at the same time, used interleaved, each compared with itself alone
+def _grain_data(c):
+    rng = np.random.default_rng(c['data_seed'])
+    return rng.lognormal(np.log(c['mu']), c['sigma'], c['ndata'])
+
+
+def _new_grain(c, which=0):
+    GG, ST = impl()[1], impl()[2]
+    cmin, cmax, bins, minb, maxb = c['grid']
+    g = GG(cmin, cmax, bins, minb, maxb, solverType=ST.EXPLICITEULER if c.get('solver', 'euler') == 'euler' else ST.RK4)
+    g.setGrainBoundaryEnergy(c['gbe'])
+    g.setGrainBoundaryMobility(c['Mgb'] * (1.0 if which == 0 else 3.0))
+    g.setAlpha(c['alpha'])
+    if c['load'] == 'data':
+        data = _grain_data(c) * (1.0 if which == 0 else 1.5)
+        before = data.copy()
+        g.LoadDistribution(data)
+        if not np.array_equal(before, data):
+            raise AssertionError('LoadDistribution modified the data it was given')
+    else:
+        mu, sg = c['mu'] * (1.0 if which == 0 else 1.5), c['sigma']
+        g.LoadDistributionFunction(lambda R: np.exp(-(np.log(R) - np.log(mu)) ** 2 / (2 * sg * sg)))
+    return g
+
+
+def _grain_ops(g, c, log, tag):
+    """runs c['ops'] on g; log receives (tag, run index, event, time, third moment, mean radius, len(time), len(avgR))"""
+    import stubs
+    run = [0]
+
+    def snap(ev):
+        log.append((tag, run[0], ev, float(g.time[-1]), float(g.pbm.ThirdMoment()), float(g.avgR[-1]), len(g.time), len(g.avgR),
+                    float(g.pbm.PSD[-1]), bool(np.all(np.isfinite(g.pbm.PSD)) and np.all(g.pbm.PSD >= 0))))
+    g.addCouplingModel(stubs.StepObserver(lambda m: snap('step')))
+    snap('initial state after ' + ('LoadDistribution' if c['load'] == 'data' else 'LoadDistributionFunction'))
+    for op in c['ops']:
+        if op[0] == 'solve':
+            t0 = float(g.time[-1])
+            g.solve(op[1], solverType=g.solverType)
+            log.append((tag, run[0], 'end', t0, op[1], float(g.time[-1])))
+        elif op[0] == 'reset':
+            g.reset()
+            run[0] += 1
+            snap('initial state after reset()')
+        elif op[0] == 'mobility':
+            g.setGrainBoundaryMobility(op[1])
+        elif op[0] == 'drag':
+            set_drag(g, op[1])
+
+
+def run_grain_history(c):
+    log = []
+    g = _new_grain(c)
+    _grain_ops(g, c, log, 'A')
+    out = {'log': log, 'final': (g.pbm.PSD.copy(), g.pbm.PSDbounds.copy(), g.time.copy(), g.avgR.copy())}
+    if c.get('second'):
+        # two models alive together, operations interleaved one by one; each must behave as it does alone
+        ga, gb = _new_grain(c, 0), _new_grain(c, 1)
+        la, lb = [], []
+        import stubs
+        opsa, opsb = list(c['ops']), list(c['ops'])
+        ca, cb = dict(c, ops=[]), dict(c, ops=[])
+        _grain_ops(ga, ca, la, 'A2')
+        _grain_ops(gb, cb, lb, 'B2')
+        for oa, ob in zip(opsa, opsb):
+            _grain_ops_one(ga, oa)
+            _grain_ops_one(gb, ob)
+        solo = _new_grain(c, 1)
+        _grain_ops(solo, dict(c, ops=[]), [], 'B')
+        for ob in opsb:
+            _grain_ops_one(solo, ob)
+        out['pair'] = {'A_alone': out['final'], 'A_with_B': (ga.pbm.PSD.copy(), ga.pbm.PSDbounds.copy(), ga.time.copy(), ga.avgR.copy()),
+                       'B_alone': (solo.pbm.PSD.copy(), solo.pbm.PSDbounds.copy(), solo.time.copy(), solo.avgR.copy()),
+                       'B_with_A': (gb.pbm.PSD.copy(), gb.pbm.PSDbounds.copy(), gb.time.copy(), gb.avgR.copy())}
+    return out
+
+
+def _grain_ops_one(g, op):
+    if op[0] == 'solve':
+        g.solve(op[1], solverType=g.solverType)
+    elif op[0] == 'reset':
+        g.reset()
+    elif op[0] == 'mobility':
+        g.setGrainBoundaryMobility(op[1])
+    elif op[0] == 'drag':
+        set_drag(g, op[1])
+
+
+def oracle_grain_history(c):
+    v = []
+    try:
+        o = quiet(run_grain_history, c)
+    except TieBroken:
+        raise
+    except Exception as e:
+        return [('no_internal_error', 'exception', 'load / solve / reset history on a GrainGrowthModel raised %s: %s' % (type(e).__name__, e))]
+    prev, covered, pinned = None, True, False
+    for ent in o['log']:
+        if ent[2] == 'end':
+            _, run, _, t0, sp, te = ent
+            if te != t0 + sp:
+                v.append(('grain_clock', 'end of solve', 'run %d: solve(%r) from %r ended at %r' % (run, sp, t0, te)))
+            continue
+        tag, run, ev, t, m3, rm, lt, lr, lastpop, ok = ent
+        where = ev if ev != 'step' else 'after a step'
+        if not ok:
+            v.append(('grain_distribution_valid', where, 'run %d (%s): distribution has negative or non-finite entries' % (run, where)))
+            break
+        if abs(m3 - 1) > 1e-9:
+            v.append(('grain_volume_conserved', where, 'run %d, %s (t = %r): total grain volume (third moment) is %r, not 1' % (run, where, t, m3)))
+        if lt != lr:
+            v.append(('grain_history_aligned', where, 'run %d, %s: %d recorded times, %d recorded mean radii' % (run, where, lt, lr)))
+        if ev != 'step':
+            if t != 0 or lt != 1:
+                v.append(('grain_clock', where, 'run %d starts at clock %r with %d recorded times' % (run, t, lt)))
+            prev, covered = None, lastpop == 0
+            continue
+        if prev is not None and not c.get('has_drag') and rm < prev * (1 - 1e-9):
+            v.append(('mean_size_nondecreasing', 'no pinning' if covered else 'no pinning, populated last size class',
+                      'run %d: mean grain radius falls from %r to %r without pinning' % (run, prev, rm)))
+        prev, covered = rm, lastpop == 0
+    if 'pair' in o:
+        for nm, a, b in (('first', o['pair']['A_alone'], o['pair']['A_with_B']), ('second', o['pair']['B_alone'], o['pair']['B_with_A'])):
+            same = all(len(x) == len(y) and np.array_equal(x, y) for x, y in zip(a, b))
+            if not same:
+                v.append(('instances_independent', 'two grain models', 'the %s of two GrainGrowthModels used interleaved ends differently from the same model used alone (mean radius %r vs %r, %d vs %d steps)'
+                          % (nm, float(b[3][-1]), float(a[3][-1]), len(b[2]), len(a[2]))))
+    return _dedupe(v)
+
+
+def gen_grain_history_case(rng):
+    mu = float(10 ** rng.uniform(-5.6, -5.0))
+    c = {'kind': 'grain_history', 'load': str(rng.choice(['data', 'function'])), 'data_seed': int(rng.integers(0, 2 ** 31)), 'mu': mu,
+         'sigma': float(rng.uniform(0.2, 0.4)), 'ndata': int(rng.integers(300, 3000)),
+         'grid': [mu / 30, mu * 12, int(rng.integers(30, 60)), 20, 120], 'alpha': 1.0, 'Mgb': float(10 ** rng.uniform(-13, -12)), 'gbe': 0.5,
+         'solver': str(rng.choice(['euler', 'rk4'])), 'second': bool(rng.random() < 0.4)}
+    tau = mu ** 2 / (c['Mgb'] * c['gbe'])
+    sp = lambda: float(tau * rng.uniform(0.01, 0.08))
+    kind = rng.choice(['reset', 'reset_twice', 'two_solves', 'mobility', 'drag'])
+    if kind == 'reset':
+        ops = [['solve', sp()], ['reset'], ['solve', sp()]]
+    elif kind == 'reset_twice':
+        ops = [['solve', sp()], ['reset'], ['solve', sp()], ['reset'], ['solve', sp()]]
+    elif kind == 'two_solves':
+        ops = [['solve', sp()], ['solve', sp()]]
+    elif kind == 'mobility':
+        ops = [['solve', sp()], ['mobility', c['Mgb'] * 2], ['solve', sp()], ['reset'], ['solve', sp()]]
+    else:
+        ops = [['solve', sp()], ['drag', float(rng.uniform(0.05, 0.3) / mu)], ['solve', sp()], ['reset'], ['solve', sp()]]
+        c['has_drag'] = True
+    c['ops'] = ops
+    return c
+
+
+# ---- oracle 7 (round 5): calling conventions, histories and several instances of StrengthModel ----------------
+def _strength_eval(s, r, L, phase, how):
+    """getStrengthContributions + combineStrengthContributions in one calling convention; returns (w, s, o, strength) as 2-d/1-d lists"""
+    def call(rr, ll):
+        if how.endswith('kw'):
+            w, st, o, _ = quiet(s.getStrengthContributions, rr, ll, phase=phase)
+        elif phase == 'all' and how.endswith('omit'):
+            w, st, o, _ = quiet(s.getStrengthContributions, rr, ll)
+        else:
+            w, st, o, _ = quiet(s.getStrengthContributions, rr, ll, phase)
+        sg = quiet(s.combineStrengthContributions, np.array(w, dtype=float), np.array(st, dtype=float), np.array(o, dtype=float))
+        return np.array(w, dtype=float), np.array(st, dtype=float), np.array(o, dtype=float), np.array(sg, dtype=float)
+    base = how.split('-')[0]
+    if base == 'array':
+        ra, la = np.array(r, dtype=float), np.array(L, dtype=float)
+        keep = (ra.copy(), la.copy())
+        w, st, o, sg = call(ra, la)
+        if not (np.array_equal(keep[0], ra) and np.array_equal(keep[1], la)):
+            raise AssertionError('arguments modified')
+        # the same argument objects are used again
+        w2, st2, o2, sg2 = call(ra, la)
+        if not (np.array_equal(w, w2, equal_nan=True) and np.array_equal(sg, sg2, equal_nan=True)):
+            raise AssertionError('second call with the same arguments differs')
+        return w.reshape(len(w), -1) if np.size(w) else np.zeros((0, len(r))), st.reshape(len(st), -1) if np.size(st) else np.zeros((0, len(r))), o.reshape(-1), sg.reshape(-1)
+    conv = {'float': float, 'npfloat': np.float64, 'zerod': lambda x: np.array(x, dtype=float)}[base]
+    cols = [call(conv(a), conv(b)) for a, b in zip(r, L)]
+    W = np.array([np.ravel(cw[0]) for cw in cols]).T if np.size(cols[0][0]) else np.zeros((0, len(r)))
+    S = np.array([np.ravel(cw[1]) for cw in cols]).T if np.size(cols[0][1]) else np.zeros((0, len(r)))
+    return W, S, np.array([float(cw[2]) for cw in cols]), np.array([float(cw[3]) for cw in cols])
+
+
+CONVENTIONS = ['array-pos', 'array-kw', 'array-omit', 'float-pos', 'npfloat-kw', 'zerod-pos']
+
+
+def oracle_strength_api(c):
+    v = []
+    P, r, L = c['params'], c['r'], c['Ls']
+    # (numpy's vectorised pow / log and the scalar ones may differ in the last bit: 1e-12 relative)
+    same = lambda a, b: all(np.shape(x) == np.shape(y) and np.allclose(x, y, rtol=1e-12, atol=0, equal_nan=True) for x, y in zip(a, b))
+    try:
+        s = build_strength(P)
+        ref = {}
+        for ph in ['all'] + P['phases']:
+            ref[ph] = _strength_eval(s, r, L, ph, 'array-pos')
+            for how in CONVENTIONS[1:]:
+                try:
+                    got = _strength_eval(s, r, L, ph, how)
+                except AssertionError as e:
+                    v.append(('arguments_unchanged', how, 'getStrengthContributions / combineStrengthContributions (%s): %s' % (how, e)))
+                    continue
+                if not same(ref[ph], got):
+                    v.append(('calling_convention', how, 'phase %s: strength %r when called with 1-d arrays and positional arguments, %r when called as %s (r=%r, Ls=%r)'
+                              % (ph, [float(x) for x in ref[ph][3]], [float(x) for x in got[3]], how, r, L)))
+        # history on one object: setters, then the same evaluation; compared with a fresh object in the final configuration
+        P2 = copy.deepcopy(P)
+        for k, val in c['changes']:
+            if k in ('M', 'sigma0', 'theta_deg', 'nu', 'G'):
+                P2[k] = val
+            else:
+                P2['contrib']['all'][k] = val
+        s.setDislocationParameters(P2['G'], P2['b'], P2['nu'], P2['ri'], P2['theta_deg'], P2['psi_deg'])
+        d = P2['contrib']['all']
+        if 'eps' in d:
+            s.setCoherencyParameters(d['eps'])
+        if 'Gp' in d:
+            s.setModulusParameters(d['Gp'], P2['w1'], P2['w2'])
+        if 'gamma' in d:
+            s.setInterfacialParameters(d['gamma'])
+        s.setTaylorFactor(P2['M'])
+        s.setBaseStrength(P2['sigma0'])
+        s.setTmodel(P2['Tmodel'])
+        s.setJfactor(P2['Jmodel'])
+        fresh = build_strength(P2)
+        for ph in ['all'] + P['phases']:
+            a, b = _strength_eval(s, r, L, ph, 'array-pos'), _strength_eval(fresh, r, L, ph, 'array-pos')
+            if not same(a, b):
+                v.append(('history_independent', 'setters between two evaluations', 'phase %s: after changing %r on a used StrengthModel the strength is %r, a fresh model with the same configuration gives %r'
+                          % (ph, [k for k, _ in c['changes']], [float(x) for x in a[3]], [float(x) for x in b[3]])))
+        # two models alive together
+        sa, sb = build_strength(P), build_strength(c['params_b'])
+        ra = _strength_eval(sa, r, L, 'all', 'array-pos')
+        rb = _strength_eval(sb, r, L, 'all', 'array-pos')
+        ra2 = _strength_eval(sa, r, L, 'all', 'array-pos')
+        solo_b = _strength_eval(build_strength(c['params_b']), r, L, 'all', 'array-pos')
+        if not same(ra, ref['all']) or not same(ra2, ref['all']) or not same(rb, solo_b):
+            v.append(('instances_independent', 'two strength models', 'two StrengthModels used interleaved give %r / %r, alone %r / %r'
+                      % ([float(x) for x in ra2[3]], [float(x) for x in rb[3]], [float(x) for x in ref['all'][3]], [float(x) for x in solo_b[3]])))
+    except TieBroken:
+        raise
+    except Exception as e:
+        v.append(('no_internal_error', 'exception', 'StrengthModel called in another convention raised %s: %s' % (type(e).__name__, e)))
+    return _dedupe(v)
+
+
+def gen_strength_api_case(rng):
+    P = gen_params(rng)
+    P['Jmodel'] = 'simple'            # (the complex J factor is a snapshot taken by setJfactor: documented usage order)
+    Pb = gen_params(rng)
+    n = 3
+    r = [float(10 ** rng.uniform(-9.4, -7.6)) for _ in range(n)]
+    L = [float(10 ** rng.uniform(-8.3, -6.3)) for _ in range(n)]
+    changes = [('M', float(rng.uniform(1, 3))), ('theta_deg', float(rng.choice([0.0, 45.0, 90.0]))), ('sigma0', float(rng.uniform(0, 1e8)))]
+    if 'Gp' in P['contrib']['all']:
+        changes.append(('Gp', float(rng.uniform(20e9, 200e9))))
+    if 'eps' in P['contrib']['all']:
+        changes.append(('eps', float(10 ** rng.uniform(-4, -2))))
+    return {'kind': 'strength_api', 'params': P, 'params_b': Pb, 'r': r, 'Ls': L, 'changes': changes}
+
+
 ORACLES = {'strength': oracle_strength, 'phase_params': oracle_phase_params, 'mixed': oracle_mixed, 'zener': oracle_zener,
-           'grain_rate': oracle_grain_rate, 'grain_run': oracle_grain_run, 'coupled': oracle_coupled}
-SITES = {'strength': S_SITE, 'phase_params': S_SITE, 'mixed': S_SITE, 'zener': G_SITE, 'grain_rate': G_SITE, 'grain_run': G_SITE, 'coupled': 'coupling'}
+           'grain_rate': oracle_grain_rate, 'grain_run': oracle_grain_run, 'coupled': oracle_coupled,
+           'grain_history': oracle_grain_history, 'strength_api': oracle_strength_api}
+SITES = {'strength': S_SITE, 'phase_params': S_SITE, 'mixed': S_SITE, 'zener': G_SITE, 'grain_rate': G_SITE, 'grain_run': G_SITE, 'coupled': 'coupling',
+         'grain_history': G_SITE, 'strength_api': S_SITE}
 
 
 def evaluate_case(c):
@@ -1232,7 +1500,8 @@ def search(ctx, quick, scale=1.0):
     rng = ctx.rng
     mult = (1 if quick else 10) * scale
     plan = [(gen_strength_case, int(150 * mult)), (gen_mixed_case, int(20 * mult)), (gen_zener_case, int(150 * mult)),
-            (gen_grain_rate_case, int(100 * mult)), (gen_grain_run_case, int(12 * mult)), (lambda r: gen_coupled_case(r, quick), max(1, int(5 * mult)))]
+            (gen_grain_rate_case, int(100 * mult)), (gen_grain_run_case, int(12 * mult)), (gen_grain_history_case, int(12 * mult)),
+            (gen_strength_api_case, int(30 * mult)), (lambda r: gen_coupled_case(r, quick), max(1, int(5 * mult)))]
     hits, kept = [], []
     for gen, n in plan:
         for i in range(n):
